@@ -305,6 +305,16 @@ func c33tighten(t *Term, lo, hi *big.Int) {
 	if lo.Cmp(hi) <= 0 {
 		ivals[t] = ival{lo, hi}
 	}
+	// t = atom + k: the same fact about the atom
+	if t.Op == "+" || t.Op == "-" {
+		if l := c33linOf(t); len(l.coef) == 1 {
+			for at, co := range l.coef {
+				if co.Cmp(bi(1)) == 0 && at != t && !at.IsConst() {
+					c33tighten(at, new(big.Int).Sub(lo, l.k), new(big.Int).Sub(hi, l.k))
+				}
+			}
+		}
+	}
 }
 
 func c33div1(a *Term, c int64) *Term {
@@ -1014,6 +1024,11 @@ func c33Pre(op token.Token, k types.BasicKind, a, b *Term) value {
 		return 0, false
 	}
 	switch op {
+	case token.EQL, token.NEQ:
+		// disjoint intervals decide (in)equality
+		if ia, ib := iv(a), iv(b); ia.lo != nil && ib.lo != nil && (ia.hi.Cmp(ib.lo) < 0 || ib.hi.Cmp(ia.lo) < 0) {
+			return op == token.NEQ
+		}
 	case token.QUO:
 		if c, ok := small(b); ok && nonneg(a) && !a.IsConst() {
 			return ti(c33div(a, c))
